@@ -176,16 +176,18 @@ class GenericCallAdapter(Adapter):
                 )
 
         if len(old_node.args) < len(new_args):
-            for insert_pos, value in list(enumerate(new_args))[len(old_node.args) :]:
+            for value in new_args[len(old_node.args) :]:
                 yield CallArg(
                     flag="fix",
                     file=self.context.file._source,
                     node=old_node,
-                    arg_pos=insert_pos,
+                    # the new arguments follow the last positional argument of the old call
+                    arg_pos=len(old_node.args),
                     arg_name=None,
                     new_code=self.context.file._value_to_code(value.value),
                     new_value=value.value,
                 )
+                result_args.append(value.value)
 
         # keyword arguments
         result_kwargs = {}
